@@ -14,6 +14,10 @@ MAIN = "crates/capy/src/main.rs"
 BODY = "crates/hir/src/body.rs"
 COMPTIME = "crates/codegen/src/compiler/comptime.rs"
 GLOBALS = "crates/hir_ty/src/globals.rs"
+FUNCTIONS = "crates/codegen/src/compiler/functions.rs"
+TY = "crates/hir/src/common/ty.rs"
+NAMES = "crates/hir/src/common/names.rs"
+MANGLE = "crates/codegen/src/mangle.rs"
 
 MUTANTS = [
     # ---------------------------------------------------------------- C26 (TopoSort)
@@ -191,4 +195,57 @@ MUTANTS = [
             .all(|base| sub.next().is_some_and(|sub| sub == base))""",
                  """        self.to_string_lossy()
             .starts_with(base.to_string_lossy().as_ref())""")]),
+    # ---------------------------------------------------------------- round 3: the later repairs come back
+    dict(id="c21-revert-const-cast", checks=["C21"], expect="caught",
+         note="F-C21-4 comes back: an array item of a narrower number type is copied with the item size of the array",
+         edits=[(FUNCTIONS, """                    let item = self.cast_const_data(item, from_ty, item_ty);
+
+                    let start = idx * item_stride as usize;
+                    let len = item.len().min(item_size as usize);
+                    array[start..start + len].copy_from_slice(&item[..len]);""",
+                 """                    let _ = from_ty;
+                    unsafe {
+                        std::ptr::copy_nonoverlapping(
+                            item.as_ptr(),
+                            array.as_mut_ptr().add(idx * item_stride as usize),
+                            item_size as usize,
+                        );
+                    }""")]),
+    dict(id="c21-revert-inline-cast", checks=["C21"], expect="caught",
+         note="F-C21-5 comes back: a global compiled inline is not cast to the global's type",
+         edits=[(FUNCTIONS, """                self.cast(res, self.tys[self.loc][body], sig_ty)
+            };""", """                let _ = sig_ty;
+                res
+            };""")]),
+    dict(id="c20-revert-const-data-loc", checks=["C20"], expect="caught",
+         note="F-C20-6 comes back: const_data reads the type of `file` in `file.name` at the starting location",
+         edits=[(GLOBALS, """            } => match self.tys[loc][*previous].as_ref() {
+                Ty::File(file) => {
+                    let ufqn = Fqn {""", """            } => match self.tys[self.loc][*previous].as_ref() {
+                Ty::File(file) => {
+                    let ufqn = Fqn {""")]),
+    dict(id="c20-revert-enum-join", checks=["C20"], expect="caught",
+         note="F-C20-7 comes back: two variants are joined into the most recently created enum with their uid",
+         edits=[(TY, "Some((*get_enum_from_variants(*first_enum_uid, &[self, other])).clone())",
+                 "Some((*get_enum_from_uid(*first_enum_uid)).clone())")]),
+    dict(id="c28-revert-src", checks=["C28"], expect="caught",
+         note="F-C28-1 comes back: the component before a second-level `src` is dropped for files outside modules too",
+         edits=[(NAMES, "        let has_src = is_mod\n            && relative_path", "        let has_src = relative_path")]),
+    dict(id="c28-revert-dot-escape", checks=["C28"], expect="caught",
+         note="F-C28-2 comes back: '.' in a file name becomes '-'",
+         edits=[(NAMES, """res.replace('\\\\', "\\\\\\\\").replace('.', "\\\\.").into()""", """res.replace('.', "-").into()""")]),
+    dict(id="c28-revert-digit-marker", checks=["C28"], expect="caught",
+         note="F-C28-3 comes back: no '.' before the kind letter of a part that begins with a digit",
+         edits=[(MANGLE, """        mangled.push_str(&(part.text.len() + 2).to_string());
+        mangled.push('.');""", """        mangled.push_str(&(part.text.len() + 1).to_string());""")]),
+    dict(id="c28-revert-strip-last-only", checks=["C28"], expect="caught",
+         note="F-C28-4 comes back: `.capy` is stripped from folder names too",
+         edits=[(NAMES, "let res = if idx + 1 == num_components {", "let res = if idx + 1 <= num_components {")]),
+    dict(id="c28-local-import-not-followed", checks=["C28"], expect="caught",
+         note="only imports lowered at the top level of a file are recorded for the driver's work list: a file imported inside a function body is never read",
+         edits=[(BODY, """        self.bodies.imports.insert(file_name);
+        Expr::Import(file_name)""", """        if self.scopes.len() <= 1 {
+            self.bodies.imports.insert(file_name);
+        }
+        Expr::Import(file_name)""")]),
 ]
